@@ -11,13 +11,16 @@
      Random strings <= 40 over a bigger alphabet likewise.
 (ii) spec/ShellState.tla: abstract shell state, definition operations and the
      projection each printer has to recreate.  TLC generates definition
-     histories; the harness applies each to a simulated shell, runs every
-     printer, evaluates the printout in a FRESH shell and snapshots it;
-     Trace_ShellState.tla judges each record against the state the spec
-     predicts for the history.  Random histories with random strings likewise.
+     histories (and checks Eval(Listing(st)) = st on the abstract listings);
+     the harness applies each to a simulated shell, runs every printer,
+     evaluates the printout in a FRESH shell (from stdin and through eval) and
+     snapshots it; Trace_ShellState.tla judges each record against the state
+     the spec predicts for the history.  Random histories with random strings
+     likewise.
 """
 import json
 import os
+import re
 import time
 from concurrent.futures import ThreadPoolExecutor
 
@@ -30,25 +33,23 @@ QUOTE_CFGS = {
     "quick": ["MC_Quote_a3.cfg", "MC_Quote_b4.cfg"],
     "thorough": ["MC_Quote_a4.cfg"],
 }
-STATE_CFGS = {
-    "quick": ["MC_ShellState_vars.cfg", "MC_ShellState_misc.cfg"],
-    "thorough": ["MC_ShellState_vars5.cfg", "MC_ShellState_misc5.cfg"],
-}
+STATE_CFG = {"quick": "MC_ShellState_quick.cfg", "thorough": "MC_ShellState_thorough.cfg"}
 
 
-def _judge(module, trace_path, shards=8, timeout=1500, header=0):
+def _judge(module, trace_path, shards=8, timeout=2400, header=0):
     """Run the Trace_* spec `module` over the ndjson file in up to `shards`
     parallel JVMs.  The first `header` lines are repeated at the head of every
-    shard.  The spec prints one JSON line {bad: index, why: ..} per record it
-    does not accept, {drift: index} per record that is accepted but differs
-    from the driver's prediction, and {done: n} at the end.  Returns
-    (bad, drift, info): bad = [(global line number, why, record)]."""
+    shard.  The spec prints one JSON line {bad: index, why: ..} per observation
+    it does not accept, {drift: index} per record that is accepted but differs
+    from the driver's prediction, {skip: index} per record outside the
+    quantifier, and {done: n} at the end.  Returns (bad, info):
+    bad = [(global line number, why, record, verdict line)]."""
     with open(trace_path) as f:
         lines = f.readlines()
     head, body = lines[:header], lines[header:]
     n = len(body)
     if n == 0:
-        return [], 0, {"events": 0, "wall": 0.0, "states": 0}
+        return [], {"events": 0, "wall": 0.0, "states": 0, "skip": 0, "drift": 0}
     per = max(1, (n + shards - 1) // shards)
     pieces = [(a, min(n, a + per)) for a in range(0, n, per)]
     paths = []
@@ -66,7 +67,7 @@ def _judge(module, trace_path, shards=8, timeout=1500, header=0):
 
     with ThreadPoolExecutor(max_workers=shards) as ex:
         results = list(ex.map(one, paths))
-    bad, drift, states = [], 0, 0
+    bad, drift, states, skip = [], 0, 0, 0
     for (a, b), r, p in zip(pieces, results, paths):
         if not r.ok:
             raise vlib.ToolError(f"{module} failed on {p}: {(r.error or r.violation or '')[:2000]}")
@@ -75,33 +76,46 @@ def _judge(module, trace_path, shards=8, timeout=1500, header=0):
             raise vlib.ToolError(f"{module} did not judge every record of {p}: {done}")
         states += r.distinct
         for j in r.json:
-            if isinstance(j, dict) and "bad" in j:
+            if not isinstance(j, dict):
+                continue
+            if "bad" in j:
                 g = a + j["bad"] - header - 1
-                bad.append((g, j.get("why", ""), json.loads(body[g]) if g >= 0 else json.loads(head[0]), j))
-            elif isinstance(j, dict) and "drift" in j:
+                rec = json.loads(body[g]) if j["bad"] > header else json.loads(head[j["bad"] - 1])
+                bad.append((g, j.get("why", ""), rec, j))
+            elif "drift" in j:
                 drift += 1
+            elif "skip" in j:
+                skip += 1
         os.remove(p)
     bad.sort(key=lambda x: x[0])
-    return bad, drift, {"events": n, "wall": time.time() - t0, "states": states}
+    return bad, {"events": n, "wall": time.time() - t0, "states": states, "skip": skip, "drift": drift}
 
 
 def _txt(cps):
     return "".join(chr(c) for c in cps)
 
 
+# --------------------------------------------------------------------------
+# (i) quoting round trip
+# --------------------------------------------------------------------------
 def _quote_violations(rep, bad, what):
     for _, why, rec, _j in bad:
-        key = {"part": "quote", "why": why.split(":")[0] + (":" + why.split(":")[1] if ":" in why else ""),
-               "s": _txt(rec["s"])}
+        key = {"part": "quote", "why": ":".join(why.split(":")[:2]), "s": _txt(rec["s"])}
         rep.violation(key, f"{what}: quote({_txt(rec['s'])!r}) = {_txt(rec['q'])!r}: {why}",
                       {"part": "quote", "s": rec["s"]})
 
 
+def _sample(line):
+    rec = json.loads(line)
+    return {"s": _txt(rec["s"]), "q": _txt(rec["q"]), "fields_read_by_real_shell": [_txt(x) for x in rec["fa"]["f"]]}
+
+
 def _run_quote(tier, wd, rep, ev):
     states = transitions = 0
-    total = 0
-    drift = 0
     samples = []
+    trace = os.path.join(wd, "quote.trace.ndjson")
+    open(trace, "w").close()
+    enumerated = 0
     for cfg in QUOTE_CFGS[tier]:
         gen = os.path.join(wd, cfg + ".gen.ndjson")
         r = vlib.tlc("MC_Quote", cfg, workers=8, json_out=gen, timeout=2400)
@@ -109,32 +123,136 @@ def _run_quote(tier, wd, rep, ev):
         vlib.log(f"[tlc] {cfg}: {r.distinct} strings, design check GoodQuote(s, QuoteRule(s)) holds, {r.wall:.1f}s")
         states += r.distinct
         transitions += r.generated
-        trace = os.path.join(wd, cfg + ".trace.ndjson")
-        vlib.run_harness(PKG, ["quote", "--in", gen, "--out", trace])
-        bad, d, info = _judge("Trace_Quote", trace)
-        drift += d
-        total += info["events"]
-        vlib.log(f"[p4] {cfg}: {info['events']} records (real quote + real reader in 5 contexts) judged by "
-                 f"Trace_Quote in {info['wall']:.1f}s, {len(bad)} rejected, drift {d}")
-        _quote_violations(rep, bad, f"enumerated ({cfg})")
-        if not samples:
-            for i, rec in enumerate(vlib.read_ndjson(trace)):
-                if i in (0, 4321, 20011):
-                    samples.append({"s": _txt(rec["s"]), "q": _txt(rec["q"]), "fields_read_by_real_shell": [_txt(f) for f in rec["fa"]["f"]]})
+        part = os.path.join(wd, cfg + ".trace.ndjson")
+        vlib.run_harness(PKG, ["quote", "--in", gen, "--out", part])
+        with open(trace, "a") as out, open(part) as f:
+            for i, line in enumerate(f):
+                out.write(line)
+                enumerated += 1
+                if i in (4321, 20011) and len(samples) < 2:
+                    samples.append(_sample(line))
         os.remove(gen)
-        os.remove(trace)
+        os.remove(part)
     # random strings beyond the exhaustive bound
-    n = 4000 if tier == "quick" else 60000
-    trace = os.path.join(wd, "quote.random.ndjson")
-    vlib.run_harness(PKG, ["quote-random", "--n", n, "--maxlen", 40, "--out", trace])
-    bad, d, info = _judge("Trace_Quote", trace)
-    drift += d
-    vlib.log(f"[p4] random strings <= 40: {info['events']} records judged in {info['wall']:.1f}s, "
-             f"{len(bad)} rejected, drift {d}")
-    _quote_violations(rep, bad, "random string")
+    n = 2000 if tier == "quick" else 60000
+    part = os.path.join(wd, "quote.random.ndjson")
+    vlib.run_harness(PKG, ["quote-random", "--n", n, "--maxlen", 40, "--out", part])
+    with open(trace, "a") as out, open(part) as f:
+        for i, line in enumerate(f):
+            out.write(line)
+            if i == 17:
+                samples.append(_sample(line))
+    os.remove(part)
+    bad, info = _judge("Trace_Quote", trace)
+    vlib.log(f"[p4] {enumerated} enumerated + {n} random strings (<= 40): real quote + real reader in 5 contexts, "
+             f"judged by Trace_Quote in {info['wall']:.1f}s: {len(bad)} rejected, drift {info['drift']}")
+    _quote_violations(rep, bad, "quote")
     os.remove(trace)
-    ev.update({"quote_states": states, "quote_transitions": transitions, "quote_enumerated": total,
-               "quote_random": info["events"], "quote_drift": drift, "quote_samples": samples})
+    ev.update({"quote_strings_enumerated": enumerated, "quote_strings_random": n, "quote_drift": info["drift"],
+               "quote_rejected": len(bad)})
+    return states, transitions, enumerated + n, samples
+
+
+# --------------------------------------------------------------------------
+# (ii) state listings
+# --------------------------------------------------------------------------
+RESERVED = {"!", "{", "}", "case", "do", "done", "elif", "else", "esac", "fi", "for", "if", "in", "then", "until",
+            "while", "[[", "]]", "function", "namespace", "select", "time"}
+
+
+def _name_class(n):
+    if n in RESERVED:
+        return "reserved-word"
+    if re.fullmatch(r"[A-Za-z_][A-Za-z0-9_]*", n):
+        return "plain"
+    return "special-characters"
+
+
+def _history_text(h):
+    out = []
+    for o in h:
+        d = {"op": o["op"], "n": _txt(o["n"])}
+        if o["op"] == "opt":
+            d["on"] = o["hv"]
+        elif o["op"] == "umask":
+            d = {"op": "umask", "m": "%03o" % o["m"]}
+        elif o["hv"]:
+            d["v"] = [_txt(x) for x in o["v"]]
+        out.append(d)
+    return out
+
+
+def _state_violations(rep, bad, what):
+    """Diagnostics only (the verdict is TLC's): describe what failed so that a
+    violation can be recognised again (known_findings.json)."""
+    for _, why, rec, j in bad:
+        kind, mode = j.get("kind", ""), j.get("mode", "")
+        h = rec.get("h", [])
+        key = {"part": "state", "why": why, "kind": kind, "mode": mode}
+        if kind == "functions" and "orig" in rec:
+            # which function names did not come back, and did the printout use
+            # the `function` keyword?
+            obs = [o for o in rec.get("fresh", []) if o["kind"] == kind and o["mode"] == mode]
+            orig = {(_txt(e["n"]), _txt(e["b"])) for e in rec["orig"]["fn"]}
+            if obs and obs[0]["ok"]:
+                got = {(_txt(e["n"]), _txt(e["b"])) for e in obs[0]["fn"]}
+                failing = {n for n, _ in orig ^ got}
+            else:   # the printout could not be evaluated at all
+                failing = {n for n, _ in orig if _name_class(n) != "plain"} or {n for n, _ in orig}
+            key["names"] = "+".join(sorted({_name_class(n) for n in failing}))
+            key["function_keyword"] = bool(obs) and any(
+                ln.startswith("function ") for ln in obs[0].get("txt", "").split("\n"))
+        if kind in ("export", "readonly", "typeset"):
+            key["plus_name"] = any(o["op"] in ("export", "readonly", "typeset") and _txt(o["n"]).startswith("+")
+                                   for o in h)
+        key["history"] = json.dumps(_history_text(h), ensure_ascii=False)
+        rep.violation(key, f"{what}: {why} {kind} {mode}: history {key['history']}",
+                      {"part": "state", "c": rec.get("c", ""), "h": h})
+
+
+def _run_state(tier, wd, rep, ev):
+    cfg = STATE_CFG[tier]
+    gen = os.path.join(wd, "state.gen.ndjson")
+    r = vlib.tlc("MC_ShellState", cfg, workers=8, json_out=gen, timeout=2400, coverage=True)
+    vlib.tlc_must_pass(r, f"generator + design check Eval(Listing(st)) = st {cfg}")
+    vlib.log(f"[tlc] {cfg}: {r.distinct} abstract states (one history each), {r.generated} transitions, "
+             f"depth {r.depth}, ListingsOK holds, {r.wall:.1f}s")
+    trace = os.path.join(wd, "state.trace.ndjson")
+    vlib.run_harness(PKG, ["state", "--in", gen, "--out", trace])
+    n_gen = vlib.count_lines(trace) - 1
+    os.remove(gen)
+    # random histories with random strings, appended to the same trace (the
+    # base record, line 1, is the same deterministic run)
+    n = 300 if tier == "quick" else 8000
+    part = os.path.join(wd, "state.random.ndjson")
+    vlib.run_harness(PKG, ["state-random", "--n", n, "--maxops", 6 if tier == "quick" else 8, "--out", part])
+    with open(trace) as f:
+        base = f.readline()
+    with open(trace, "a") as out, open(part) as f:
+        if f.readline() != base:
+            raise vlib.ToolError("the base shell differs between two harness runs")
+        for line in f:
+            out.write(line)
+    os.remove(part)
+    bad, info = _judge("Trace_ShellState", trace, header=1, shards=4 if tier == "quick" else 8)
+    vlib.log(f"[p2] {n_gen} generated + {n} random histories replayed on the real shell (10 printers x 2 ways of "
+             f"evaluation), judged by Trace_ShellState in {info['wall']:.1f}s: {len(bad)} rejected observations, "
+             f"{info['skip']} skipped")
+    _state_violations(rep, bad, "history")
+    samples = []
+    own = 0
+    for i, rec in enumerate(vlib.read_ndjson(trace)):
+        if i == 0:
+            continue
+        own += len(rec["fresh"])
+        if i in (700, 1100, n_gen + 5):
+            samples.append({"history": _history_text(rec["h"]),
+                            "printouts_differing_from_base_shell": sorted({o["kind"] for o in rec["fresh"]})})
+    os.remove(trace)
+    ev.update({"state_histories_generated": n_gen, "state_histories_random": n,
+               "state_skipped": info["skip"], "state_rejected_observations": len(bad),
+               "state_printouts_evaluated_in_fresh_shell": own, "tlc_action_coverage": r.coverage})
+    return r.distinct, r.generated, n_gen + n, samples
 
 
 def run(tier):
@@ -142,10 +260,62 @@ def run(tier):
     wd = vlib.workdir(PID)
     rep = vlib.Reporter(PID)
     ev = {}
-    _run_quote(tier, wd, rep, ev)
+    qs, qt, qn, qsamples = _run_quote(tier, wd, rep, ev)
+    ss, st, sn, ssamples = _run_state(tier, wd, rep, ev)
     rc = rep.finish()
+    ev.update({
+        "states": qs + ss,
+        "transitions": qt + st,
+        "traces_validated_against_impl": qn + sn,
+        "samples": qsamples + ssamples,
+        "evaluations": qn * 6 + ev["state_printouts_evaluated_in_fresh_shell"] + sn,
+        "distinct_nontrivial": qn + sn,
+        "rule": "one per distinct string s (real quote(s) read back by the real shell in 5 contexts and by the "
+                "spec's reader in 3) plus one per distinct definition history (10 printers, each printout that "
+                "differs from the base shell's evaluated in 2 fresh shells)",
+        "exhaustive": True,
+        "bounds": {"alphabet": 28, "max_len": 3 if tier == "quick" else 4,
+                   "sub_alphabet_len4": 10 if tier == "quick" else 28,
+                   "random_string_max_len": 40, "history_depth": 3 if tier == "quick" else 5},
+        "known_findings_hit": {k: v[1] for k, v in rep.known_hits.items()},
+    })
+    vlib.write_evidence(PID, tier, ev, time.time() - t0, violations=len(rep.violations), assumptions=[
+        "the reader of Quote.tla covers words that contain only quoting; words with expansions are outside it",
+        "blank = Unicode White_Space except newline, the lexer's documented choice of the locale's <blank> class",
+        "quote output is judged where words are expanded (argument, declaration-utility argument, assignment "
+        "value, array element), not in command position (reserved words)",
+        "histories stay inside ShellState!OpEnabled (no assignment to read-only variables, no definitions under "
+        "`portable`, no readonly/typeset under `allexport`, `exec` never switched off)",
+        "function bodies are compared as printed trees; here-documents are not generated",
+        "the string never contains NUL",
+        "TLC 1.8.0 and the JSON community module are trusted",
+    ])
     return rc
 
 
 def replay(path):
-    return 2
+    """Re-run one recorded violation on the current tree."""
+    with open(path) as f:
+        obj = json.load(f)
+    rp = obj["replay"]
+    wd = vlib.workdir(PID + "-replay")
+    rep = vlib.Reporter(PID)
+    src = os.path.join(wd, "in.ndjson")
+    trace = os.path.join(wd, "out.ndjson")
+    if rp["part"] == "quote":
+        with open(src, "w") as f:
+            f.write(json.dumps({"s": rp["s"]}) + "\n")
+        vlib.run_harness(PKG, ["quote", "--in", src, "--out", trace])
+        bad, _ = _judge("Trace_Quote", trace, shards=1)
+        _quote_violations(rep, bad, "replay")
+    else:
+        with open(src, "w") as f:
+            f.write(json.dumps({"c": rp.get("c", ""), "h": rp["h"]}) + "\n")
+        vlib.run_harness(PKG, ["state", "--in", src, "--out", trace])
+        bad, _ = _judge("Trace_ShellState", trace, shards=1, header=1)
+        _state_violations(rep, bad, "replay")
+    for _, why, rec, j in bad:
+        print("rejected:", why, j.get("kind", ""), j.get("mode", ""))
+    if not bad:
+        print("accepted")
+    return rep.finish()
